@@ -185,6 +185,40 @@ fn run_resolution(cfg: &Cfg, layout: &Layout, src: &str, literal: &str) {
     println!("{}", line);
 }
 
+/// The `.luaurc` lookup cache lives for a whole run: a require resolved after other files of the same run were
+/// processed (warm cache, either order) must give what it gives first thing in a run (cold cache).
+fn run_warm(cfg: &Cfg, layout: &Layout, srcs: &[&str], src: &str, literal: &str) {
+    let mode = cfg.mode();
+    let full = (1usize << layout.optional.len()) - 1;
+    for mask in [full, full & 0x55, full & 0xAA] {
+        let resources = resources_for(layout, mask);
+        let cold = find(cfg, &mode, src, literal, &resources);
+        let mut warm = Vec::new();
+        for reversed in [false, true] {
+            let resources = resources_for(layout, mask);
+            let mut others: Vec<&str> = srcs.iter().cloned().filter(|o| *o != src).collect();
+            if reversed {
+                others.reverse();
+            }
+            for other in others {
+                let _ = find(cfg, &mode, other, literal, &resources);
+            }
+            warm.push(res_path(&find(cfg, &mode, src, literal, &resources)));
+        }
+        println!(
+            "W {} {} {} {} {} {} {} {}",
+            cfg.id,
+            layout.id,
+            h(src),
+            h(literal),
+            mask,
+            res_path(&cold),
+            warm[0],
+            warm[1]
+        );
+    }
+}
+
 fn convert_one(
     current: &Cfg,
     current_mode: &RequireMode,
@@ -870,6 +904,21 @@ fn main() {
                     for src in &srcs {
                         for lit in &lits {
                             run_resolution(&c, l, src, lit);
+                        }
+                    }
+                }
+                if !l.rc.is_empty() {
+                    for id in &cfg_ids {
+                        let c = cfg(id);
+                        if !c.use_rc {
+                            continue;
+                        }
+                        for src in &srcs {
+                            for lit in &lits {
+                                if lit.starts_with('@') {
+                                    run_warm(&c, l, &srcs, src, lit);
+                                }
+                            }
                         }
                     }
                 }
